@@ -6,6 +6,8 @@ import (
 	"go/types"
 
 	"golang.org/x/tools/go/ssa"
+
+	"pv/internal/ssax"
 )
 
 // Finite-domain evaluation of pure byte predicates: the whitespace alphabet of the skipping loop is decided by
@@ -21,6 +23,9 @@ type bval struct {
 }
 
 type benv map[ssa.Value]bval
+
+// foldParserCount, when set, is the value len() of any []parsley.Parser takes during a fold.
+var foldParserCount *int64
 
 // foldValue evaluates v under env; unknown values yield known=false.
 func foldValue(v ssa.Value, env benv, depth int) bval {
@@ -115,6 +120,12 @@ func foldValue(v ssa.Value, env benv, depth int) bval {
 			return bval{known: true, i: a.i & b.i}
 		}
 	case *ssa.Call:
+		// the length of a parser list, when the caller of the fold has fixed the number of parsers
+		if bi, ok := x.Call.Value.(*ssa.Builtin); ok && bi.Name() == "len" && foldParserCount != nil && len(x.Call.Args) == 1 {
+			if sl, ok := x.Call.Args[0].Type().Underlying().(*types.Slice); ok && ssax.NamedIs(sl.Elem(), "parsley", "Parser") {
+				return bval{known: true, i: *foldParserCount}
+			}
+		}
 		// a pure helper of the library: fold its body
 		if sc := x.Call.StaticCallee(); sc != nil && len(sc.Blocks) > 0 && !x.Call.IsInvoke() {
 			args := make([]bval, len(x.Call.Args))
